@@ -31,6 +31,7 @@ func ServerCallOf(ctx context.Context) *Call {
 // Knobs are the per-call transport parameters and fault plan, fixed before
 // the call starts (generated from the tape by the workload).
 type Knobs struct {
+	MutateURL    bool // the HTTPClient edits request.URL in place (per-call query parameter)
 	HTTP2        bool
 	UpWindow     int
 	DownWindow   int
@@ -77,6 +78,8 @@ type Call struct {
 	// written through norace helpers only (several library goroutines touch
 	// them and the harness must not add happens-before edges between them)
 	ex        *Exchange
+	urlSeen   string
+	urlSet    bool
 	doCount   int
 	bodyClose int
 	hits      [NumPoints]int
@@ -143,6 +146,30 @@ func (c *Call) Exchange() *Exchange { return c.ex }
 //go:norace
 //go:noinline
 func (c *Call) DoCount() int { return c.doCount }
+
+// DownReadOffset: response-body bytes consumed so far (-1 before the
+// exchange exists). Read without synchronisation on purpose: the caller is a
+// task and must not acquire happens-before edges from the harness.
+//
+//go:norace
+//go:noinline
+func (c *Call) DownReadOffset() int {
+	if c.ex == nil || c.ex.Down == nil {
+		return -1
+	}
+	return c.ex.Down.rd
+}
+
+//go:norace
+//go:noinline
+func (c *Call) noteURL(q string) { c.urlSeen, c.urlSet = q, true }
+
+// URLAtDo returns the query string the request URL carried when Do was
+// entered (a pristine request has none) and whether Do was reached.
+//
+//go:norace
+//go:noinline
+func (c *Call) URLAtDo() (string, bool) { return c.urlSeen, c.urlSet }
 
 //go:norace
 //go:noinline
@@ -266,6 +293,13 @@ func (n *Net) Do(req *http.Request) (*http.Response, error) {
 		return nil, errNoCall
 	}
 	c.incDo()
+	if c.K.MutateURL && req.URL != nil {
+		// an HTTPClient that routes by editing the request it was handed (shard
+		// or tenant parameter, gateway prefix): legal for a user-supplied Do, and
+		// visible to other calls only if the library shares the URL between them
+		c.noteURL(req.URL.RawQuery)
+		req.URL.RawQuery = "simcall=" + c.ID
+	}
 	if err := validHeaders(req.Header); err != nil {
 		closeBody(req)
 		return nil, urlErr(req, err)
